@@ -6,6 +6,7 @@ package main
 
 import (
 	"fmt"
+	"os"
 	"go/ast"
 	"go/constant"
 	"go/token"
@@ -63,6 +64,7 @@ type Obligation struct {
 }
 
 type Exec struct {
+	inHavoc bool // modelling a callee's or a loop's writes, not a write of the function under verification
 	offeredForms    [][2]string // (formula with offered witnesses, plain formula) since the last check/assume
 	topEntryAlloc   Term        // allocation map at entry of the function under verification
 	curPos          token.Pos   // position of the instruction being executed
@@ -916,10 +918,54 @@ func (x *Exec) havocLoop(fr *Frame, li *loopInfo, st *State) {
 		fr.env[phi] = nv
 	}
 	mods := x.modsOfBlocks(fr, li.body)
-	x.havocMods(fr, st, mods, fmt.Sprintf("loop%d", li.ordinal))
+	if os.Getenv("VC_DEBUGMODS") != "" {
+		fmt.Fprintf(os.Stderr, "MODS %s loop#%d heaps=%v params=%v all=%v ext=%v\n", fr.fn.Name(), li.ordinal, sortedKeys(mods.heaps), mods.params, mods.allHeaps, mods.extHeaps)
+	}
+	var pv []*Val
+	for _, q := range fr.fn.Params {
+		pv = append(pv, fr.env[q])
+	}
+	x.havocMods(fr, st, mods, fmt.Sprintf("loop%d", li.ordinal), pv...)
 }
 
-func (x *Exec) havocMods(fr *Frame, st *State, mods *modSet, why string) {
+func (x *Exec) havocMods(fr *Frame, st *State, mods *modSet, why string, pvals ...*Val) {
+	// objects written through pointer parameters: only the pointee changes
+	x.inHavoc = true
+	defer func() { x.inHavoc = false }()
+	for _, k := range sortedIntKeys(mods.params) {
+		elem := mods.params[k]
+		if k >= len(pvals) || pvals[k] == nil {
+			if h := x.heapName(elem); h != "" {
+				mods.heaps[h] = true // unknown argument: fall back to the heap of that type
+			}
+			continue
+		}
+		pv := pvals[k]
+		var loc *Loc
+		if pv.Loc != nil {
+			loc = pv.Loc
+			if loc.T == nil {
+				loc.T = elem
+			}
+		} else {
+			loc = x.locOfPtr(x.term(pv), elem)
+		}
+		if loc.Kind == LCell {
+			nv := x.sc.Fresh("pointee_"+why, x.sortOf(elem))
+			x.store(st, loc, nv)
+			x.assume(st, x.typeInv(nv, elem, st, 2))
+			continue
+		}
+		// a nil argument points nowhere: the write happens only for a real object
+		old := x.load(st, loc)
+		nv := x.sc.Fresh("pointee_"+why, x.sortOf(elem))
+		x.assume(st, x.typeInv(nv, elem, st, 2))
+		if loc.NilOK.S != "" && !strings.HasPrefix(string(nv.Sort), "(Array") {
+			x.store(st, loc, Ite(loc.NilOK, nv, old))
+		} else {
+			x.store(st, loc, nv)
+		}
+	}
 	for _, h := range sortedKeys(mods.heaps) {
 		hs, ok := x.heapSorts[h]
 		if !ok {
@@ -1004,4 +1050,13 @@ func isRepoType(t types.Type) bool {
 	}
 	n, ok := t.(*types.Named)
 	return ok && n.Obj().Pkg() != nil && strings.HasPrefix(n.Obj().Pkg().Path(), repoMod)
+}
+
+func sortedIntKeys(m map[int]types.Type) []int {
+	var ks []int
+	for k := range m {
+		ks = append(ks, k)
+	}
+	sort.Ints(ks)
+	return ks
 }
